@@ -1599,6 +1599,42 @@ def r12z(ctx, rep, rule="R12z"):
     rep.floor(rule, "memory-owning fields of Lambda", n, 4)
 
 
+def r12o(ctx, rep, rule="R12o"):
+    """a stack trace shares what its frames describe"""
+    facts = ctx["facts"]
+    rep.rule(rule, "what a failed evaluation leaves behind is one trace, and the trace is held until the next evaluation: it has one "
+             "frame per saved instruction pointer, so whatever a frame owns is multiplied by the depth of the failure. A frame "
+             "describes its procedure by the procedure's formals; copying that datum into every frame (Cell::clone is a deep "
+             "copy) makes a failure at depth 10^5 in a procedure with a 10 KB formal name hold 1 GB after the evaluation has "
+             "ended. Inside the loops of StackTrace::new no Cell (or Option<Cell>) is cloned: what a frame needs of its "
+             "procedure it shares (a reference-counted handle).")
+    f = need(rep, rule, facts, "marwood::vm::trace::StackTrace::new")
+    if f is None:
+        return
+    body = set()
+    for src, h in f.back_edges():
+        body |= (f.reach_from(h) & f.reach_back(src)) | {h, src}
+    if not body:
+        rep.anchor_lost(rule, "the loop over the stack in StackTrace::new")
+        return
+    bad = []
+    n = 0
+    for bb, t in f.calls():
+        if bb not in body:
+            continue
+        fa = t.get("fnargs") or ""
+        if fa.endswith("as std::clone::Clone>::clone"):
+            n += 1
+            if re.search(r"^<(std::option::Option<)?marwood::cell::Cell>? as std::clone::Clone>::clone$", fa):
+                bad.append(t["loc"])
+    key = rule + "|StackTrace::new|frames-share-description"
+    (rep.ok if not bad else rep.fail)(
+        rule, key, "no frame of a stack trace owns a deep copy of a datum (%d clone%s in the loop, none of a Cell)" % (n, "" if n == 1 else "s") if not bad else
+        "StackTrace::new deep-copies a Cell into every frame: the trace of a failure at depth n holds n copies of the procedure's "
+        "formals until the next evaluation", bad)
+    rep.floor(rule, "clones inside the frame loop of StackTrace::new", n, 1)
+
+
 def _gate_every_instruction(facts):
     """does a call of run_gc, or of one of the Heap queries its gate uses, dominate run_one inside run_count's dispatch loop?"""
     f = facts.fns.get(RUN_COUNT)
